@@ -5,6 +5,7 @@ import (
 	"fmt"
 	"os"
 	"runtime/debug"
+	"time"
 
 	"github.com/cedar-policy/cedar-go/verif/c01"
 	"github.com/cedar-policy/cedar-go/verif/c02"
@@ -51,6 +52,10 @@ var registry = map[string]func() *core.Check{
 
 func main() {
 	debug.SetGCPercent(400)
+	// the process-local time zone is part of the environment the harness owns: nothing the
+	// library computes or prints may depend on it, so every check runs in a zone that is not
+	// UTC (the reference model does its own calendar arithmetic and never consults it)
+	time.Local = time.FixedZone("verif", 5*3600+30*60)
 	if len(os.Args) < 2 {
 		fmt.Fprintln(os.Stderr, "usage: mc <id> quick|thorough | mc <id> --replay <file>")
 		os.Exit(2)
